@@ -81,101 +81,27 @@ theorem chk_order_check_eq (files : List (Int × Int × Int)) (pos : List Int) (
           cellOk files pos S T v t s)
       then .ok () else .error PyErr.invalidStack := by
   unfold Py.chk_order_check
-  have inner : ∀ v t (st : Nat),
-      ((List.range S).all (fun s => cellOk files pos S T v t s) = true ∧ ∃ s', _ = Except.ok s') ∨
-      ((List.range S).all (fun s => cellOk files pos S T v t s) = false ∧ _ = Except.error PyErr.invalidStack) :=
-    fun v t st => forIn_guard PyErr.invalidStack (fun s => cellOk files pos S T v t s)
-      (fun (slice_idx __s : Nat) =>
-        have file_idx := v * T * S + t * S + slice_idx;
-        have file_info := files[file_idx]!;
-        have __do_jp := fun (__r : Unit) =>
-          if (file_info.snd.snd != pos[slice_idx]!) = true then do
-            throw PyErr.invalidStack
-            pure (ForInStep.yield file_idx)
-          else pure (ForInStep.yield file_idx);
-        if (file_info.fst != files[v * T * S]!.fst) = true then do
-          let __r ← throw PyErr.invalidStack
-          __do_jp __r
-        else __do_jp ())
-      (by
-        intro s st'
+  rw [forIn_guard_unit PyErr.invalidStack
+    (fun v => (List.range T).all fun t => (List.range S).all fun s => cellOk files pos S T v t s) _ _ ?outer]
+  case outer =>
+    intro v _ u
+    try dsimp only
+    rw [forIn_guard_unit PyErr.invalidStack (fun t => (List.range S).all fun s => cellOk files pos S T v t s) _ _ ?middle]
+    case middle =>
+      intro t _ u'
+      try dsimp only
+      rw [forIn_guard_unit PyErr.invalidStack (fun s => cellOk files pos S T v t s) _ _ ?inner]
+      case inner =>
+        intro s _ u''
+        try dsimp only
         simp only [cellOk]
-        generalize files[v * T * S + t * S + s]! = fi
-        generalize files[v * T * S]! = f0
-        generalize pos[s]! = ps
-        by_cases h1 : fi.1 = f0.1 <;> by_cases h2 : fi.2.2 = ps <;>
-          simp [h1, h2, bind, Except.bind, throw, throwThe, MonadExceptOf.throw, pure, Except.pure])
-      (List.range S) st
-  have middle : ∀ v (st : Nat),
-      ((List.range T).all (fun t => (List.range S).all fun s => cellOk files pos S T v t s) = true ∧
-        ∃ s', _ = Except.ok s') ∨
-      ((List.range T).all (fun t => (List.range S).all fun s => cellOk files pos S T v t s) = false ∧
-        _ = Except.error PyErr.invalidStack) :=
-    fun v st => forIn_guard PyErr.invalidStack
-      (fun t => (List.range S).all fun s => cellOk files pos S T v t s)
-      (fun (time_idx __s : Nat) =>
-        have file_idx := __s;
-        do
-        let __s ←
-          forIn (List.range S) file_idx fun (slice_idx __s : Nat) =>
-              have file_idx := v * T * S + time_idx * S + slice_idx;
-              have file_info := files[file_idx]!;
-              have __do_jp := fun (__r : Unit) =>
-                if (file_info.snd.snd != pos[slice_idx]!) = true then do
-                  throw PyErr.invalidStack
-                  pure (ForInStep.yield file_idx)
-                else pure (ForInStep.yield file_idx);
-              if (file_info.fst != files[v * T * S]!.fst) = true then do
-                let __r ← throw PyErr.invalidStack
-                __do_jp __r
-              else __do_jp ()
-        have file_idx : Nat := __s
-        pure (ForInStep.yield file_idx))
-      (by
-        intro t st'
-        rcases inner v t st' with ⟨ha, s', h⟩ | ⟨ha, h⟩
-        · exact Or.inl ⟨ha, s', by simp only [h]; rfl⟩
-        · exact Or.inr ⟨ha, by simp only [h]; rfl⟩)
-      (List.range T) st
-  have outer := forIn_guard PyErr.invalidStack
-      (fun v => (List.range T).all fun t => (List.range S).all fun s => cellOk files pos S T v t s)
-      (fun (vec_idx : Nat) (__s : PUnit) =>
-        have file_idx := vec_idx * T * S;
-        have curr_vec_val := files[file_idx]!.fst;
-        do
-        let _ ←
-          forIn (List.range T) file_idx fun (time_idx __s : Nat) =>
-              have file_idx := __s;
-              do
-              let __s ←
-                forIn (List.range S) file_idx fun (slice_idx __s : Nat) =>
-                    have file_idx := vec_idx * T * S + time_idx * S + slice_idx;
-                    have file_info := files[file_idx]!;
-                    have __do_jp := fun (__r : Unit) =>
-                      if (file_info.snd.snd != pos[slice_idx]!) = true then do
-                        throw PyErr.invalidStack
-                        pure (ForInStep.yield file_idx)
-                      else pure (ForInStep.yield file_idx);
-                    if (file_info.fst != curr_vec_val) = true then do
-                      let __r ← throw PyErr.invalidStack
-                      __do_jp __r
-                    else __do_jp ()
-              have file_idx : Nat := __s
-              pure (ForInStep.yield file_idx)
-        pure (ForInStep.yield PUnit.unit))
-      (by
-        intro v u
-        rcases middle v (v * T * S) with ⟨ha, s', h⟩ | ⟨ha, h⟩
-        · exact Or.inl ⟨ha, PUnit.unit, by simp only [h]; rfl⟩
-        · exact Or.inr ⟨ha, by simp only [h]; rfl⟩)
-      (List.range V) PUnit.unit
-  rcases outer with ⟨ha, s', h⟩ | ⟨ha, h⟩
-  · rw [if_pos ha]
-    simp only [h]
-    rfl
-  · rw [if_neg (by simp [ha])]
-    simp only [h]
-    rfl
+        simp [bind, Except.bind, pure, Except.pure, throw, throwThe, MonadExceptOf.throw]
+        split <;> split <;> simp_all
+      cases (List.range S).all fun s => cellOk files pos S T v t s <;> simp [bind, Except.bind, pure, Except.pure]
+    cases (List.range T).all fun t => (List.range S).all fun s => cellOk files pos S T v t s <;>
+      simp [bind, Except.bind, pure, Except.pure]
+  cases (List.range V).all (fun v => (List.range T).all fun t => (List.range S).all fun s => cellOk files pos S T v t s) <;>
+    simp [bind, Except.bind, pure, Except.pure]
 
 /-! ### the cell-wise check is the block-wise acceptance test of the model -/
 section cells
